@@ -84,6 +84,7 @@ def dispatch (op : String) (args : List String) : Option String :=
   -- strictness at depth: a protected bucket that is not exactly one well-formed, definite-length, duplicate-free map
   -- (trailing octets, indefinite lengths, duplicate labels, a non-map item, bad labels) is rejected
   | "wire.badbucket" => some "rejected"
+  | "wire.badarity" => some "rejected"
   -- … and a payload that is not strict CBOR is refused when the payload destination is a typed value
   | "wire.badpayload" => some "rejected"
   | "cbor.encdup" => some "no-dup"
